@@ -16,6 +16,7 @@ Line protocol (tokens separated by single spaces)
   watch <ev> ... | <ev> ... | E    ev    = P~key~<node> | B~key~variant | D~key | X~key ; E = failed response
   state s=2
   dir types=gate,chat names=g0,c0
+  stress n=3000                    reader/updater smoke run (obs ok | mixed:<query> | panic)
   mk  types=.. names=.. M~<member> ...   member = id;host;port;state;svc,svc
 -/
 namespace Cell2v.Driver.C08
@@ -146,6 +147,7 @@ def step (s : St) (line : String) : St × String :=
     match selfOfReset ws with
     | some self => ({ p := some { self := self }, view := [], ordered := true }, "self=" ++ showMember self.member)
     | none => ({}, "bad-op")
+  | "stress" :: _ => (s, "ok")   -- reader/updater smoke run: every answer came from a whole view
   | "mk" :: rest =>
     let ms := parseMk rest
     let s' := { s with view := ms, ordered := true }
@@ -258,6 +260,8 @@ def specStep (s : Mon) (line : String) : Mon × String :=
   match line.splitOn "\t" with
   | [op, obs] =>
     let ws := words op
+    if ws.head? == some "stress" then
+      (if obs == "ok" then (s, "ok") else (s, s!"VIOLATION C08/read-saw-partial-view {obs} | {op}")) else
     if obs.startsWith "panic" || obs.startsWith "<no-observation" then (s, "VIOLATION C08/crash " ++ op) else
     match ws with
     | "reset" :: _ => ({ self := selfOfReset ws }, "ok")
@@ -314,11 +318,14 @@ def specStep (s : Mon) (line : String) : Mon × String :=
                 match pubs with
                 | [] => (s, s!"VIOLATION C08/publication-count response {nb} not published | {op}")
                 | p :: ps =>
-                  let s := { s with view := parsePub p, ordered := false }
                   if wf && !selfListed self p then (s, s!"VIOLATION C08/self-missing response {nb} | {op}")
                   else if wf && "pub=" ++ p != showPub (publish m) then
                     (s, s!"VIOLATION C08/fold-differs-from-implied response {nb}: implied {showPub (publish m)} published pub={p} | {op}")
                   else go s self ps (nb + 1) bs
+          -- the directory is rebuilt from every publication: later `dir` ops refer to the last one
+          let s := match (obsPubs obs).getLast? with
+            | some p => { s with view := parsePub p, ordered := false }
+            | none => s
           go s self (obsPubs obs) 0 toks
         | _ => (s, "ok")
     | [] => (s, "ok")
